@@ -121,6 +121,9 @@ def run_one(ctx, facts, cfgname):
     ctx.rule("R16.4", "every NonZero::new_unchecked(x) in the decoder is in an arm guarded by x != 0 (and i32::try_from(x).is_ok() "
                       "when narrowing to NonZeroI32)")
     ctx.rule("R16.5", "Signal -> SerdeSignal -> Signal is the identity on the seven first-class signals and on Custom(n)")
+    ctx.rule("R16.8", "tolerant readers: the derived deserialisers of the mirror structs (SerdeTag, SerdeEvent) keep serde's default of ignoring fields they do "
+                      "not know (their field enum has the `__ignore` case and nothing calls unknown_field), so an object of a known kind with extra or "
+                      "unexpected fields still parses - to that kind or to Tag::Unknown - instead of failing the whole event")
     ctx.rule("R16.7", "stable names: the derived Serialize impls of the tag-kind / disposition / simple-kind / signal-name enums emit the kebab-case "
                       "(or documented SIG*) name of each variant, and SerdeTag / SerdeEvent serialise their fields under the field names")
     ctx.rule("R16.6", "event metadata is serialised through a BTreeMap (sorted keys); Tag and Event (de)serialise through their "
@@ -432,3 +435,14 @@ def run_one(ctx, facts, cfgname):
             ctx.require(bool(via), "R16.6", "mirror:%s:%s%s" % (ty.split("::")[-1], direction, sfx),
                         "%s %ss through %s" % (ty.split("::")[-1], "serialise" if direction == "into" else "deserialise", mirror),
                         f.loc(f.line), fail="%s no longer goes through %s" % (ty, mirror))
+
+    # ---- R16.8 tolerant readers
+    try:
+        for st in ("SerdeTag", "SerdeEvent"):
+            fe = [a for k, a in ctx.facts.adts.items() if k.endswith("for watchexec_events::serde_formats::%s>::deserialize::__Field" % st)]
+            ok8 = len(fe) == 1 and "__ignore" in [v["name"] for v in fe[0]["variants"]]
+            uk = [f.def_ for f in ctx.facts.fns_matching(r"serde_formats::%s>::deserialize::" % st) for _, t in f.calls() if "unknown_field" in (t.callee.path or "")]
+            ctx.require(ok8 and not uk, "R16.8", "ignores-unknown-fields:" + st, "%s's deserialiser ignores unknown fields" % st, detail="%s %s" % ([v["name"] for v in fe[0]["variants"]][-2:] if fe else None, uk[:1]),
+                        fail="%s rejects objects with unknown fields (deny_unknown_fields): one unexpected field in one tag makes the whole event fail to parse instead of yielding that tag or Tag::Unknown" % st)
+    except Skip:
+        pass
